@@ -351,9 +351,17 @@ orc_x86_add_strides (OrcCompiler *c)
     switch (c->vars[i].vartype) {
       case ORC_VAR_TYPE_SRC:
       case ORC_VAR_TYPE_DEST:
-        orc_x86_emit_mov_memoffset_reg (c, 4,
-            (int)ORC_STRUCT_OFFSET (OrcExecutor, params[i]), c->exec_reg,
-            c->gp_tmpreg);
+        if (c->is_64bit) {
+          /* the stride is a signed int: a negative one has to reach the
+           * 64-bit pointer addition sign-extended */
+          orc_x86_emit_cpuinsn_memoffset_reg (c, ORC_X86_movslq_rm_r, 8,
+              (int)ORC_STRUCT_OFFSET (OrcExecutor, params[i]), c->exec_reg,
+              c->gp_tmpreg);
+        } else {
+          orc_x86_emit_mov_memoffset_reg (c, 4,
+              (int)ORC_STRUCT_OFFSET (OrcExecutor, params[i]), c->exec_reg,
+              c->gp_tmpreg);
+        }
         orc_x86_emit_add_reg_memoffset (c, c->is_64bit ? 8 : 4,
             c->gp_tmpreg,
             (int)ORC_STRUCT_OFFSET (OrcExecutor, arrays[i]),
